@@ -156,17 +156,15 @@ def _p_norm(p: float, critical_pairs: list = []):
                 continue
             # slope is well-defined
             slope = (y1 - y0) / (x1 - x0)
-            b = y0 - slope * x0
+            # integral of |y|^p between a zero of the line and the point of
+            # height |y| (the antiderivative must use |y|, not y: the sign of
+            # y**(p+1) depends on the parity of p and is undefined for real p)
+            ev_x1 = np.abs(y1) ** (p + 1) / (np.abs(slope) * (p + 1))
+            ev_x0 = np.abs(y0) ** (p + 1) / (np.abs(slope) * (p + 1))
             # segment crosses the x-axis
             if (y0 < 0 and y1 > 0) or (y0 > 0 and y1 < 0):
-                z = -b / slope
-                ev_x1 = (slope * x1 + b) ** (p + 1) / (slope * (p + 1))
-                ev_x0 = (slope * x0 + b) ** (p + 1) / (slope * (p + 1))
-                ev_z = (slope * z + +b) ** (p + 1) / (slope * (p + 1))
-                result += np.abs(ev_x1 + ev_x0 - 2 * ev_z)
+                result += ev_x1 + ev_x0
             # segment does not cross the x-axis
             else:
-                ev_x1 = (slope * x1 + b) ** (p + 1) / (slope * (p + 1))
-                ev_x0 = (slope * x0 + b) ** (p + 1) / (slope * (p + 1))
                 result += np.abs(ev_x1 - ev_x0)
     return (result) ** (1.0 / p)
